@@ -37,6 +37,19 @@ def ref_step(prev: dict, alpha: float, tie: int, target, gamma, kappa, t0) -> di
     return {"error_sum": es, "step_size": np.exp(log_eps), "log_avg_step_size": eta * log_eps + (1 - eta) * prev["log_avg_step_size"], "mu": prev["mu"]}
 
 
+def step_close(g, e, rtol, atol):
+    """Step sizes are compared on the log scale; beyond float32's range the kernel's number is inf
+    (or 0) where the float64 reference is still finite - the same value, not another one."""
+    g, e = float(g), float(e)
+    if np.isinf(g) and g > 0:
+        return e > 3.0e38
+    if g == 0.0:
+        return 0.0 <= e < 1e-37
+    if g > 0 and e > 0 and np.isfinite(e):
+        return close(np.log(g), np.log(e), rtol, atol)
+    return close(g, e, rtol, atol)
+
+
 # ---------------------------------------------------------------------------- plans
 
 
@@ -154,7 +167,7 @@ def check_direct(d, V, counters):
             # end of an epoch and start of the next one
             la = float(ks.log_avg_step_size)
             da_finalize(ks)
-            if not close(ks.step_size, np.exp(la), 1e-5):
+            if not step_close(ks.step_size, np.exp(la), 1e-5, 1e-6):
                 V.add("da-finalize", "averaged-step-size", f"after da_finalize the step size is {float(ks.step_size)}, exp(log-average) = {np.exp(la)}")
             da_init(ks)
             if not (close(ks.mu, np.log(10 * float(ks.step_size)), 1e-5, 1e-5) and float(ks.error_sum) == 0.0 and close(ks.log_avg_step_size, np.log(float(ks.step_size)), 1e-5, 1e-5)):
@@ -175,7 +188,7 @@ def check_direct(d, V, counters):
         da_step(ks_hi, jnp.float32(a_hi), tie, *const)
         for f_ in ("error_sum", "step_size", "log_avg_step_size", "mu"):
             g, e = np.float64(getattr(ks, f_)), exp[f_]
-            ok = close(np.log(g), np.log(e), 1e-4, 1e-4) if f_ == "step_size" and g > 0 else close(g, e, 1e-4, 1e-4)
+            ok = step_close(g, e, 1e-4, 1e-4) if f_ == "step_size" else close(g, e, 1e-4, 1e-4)
             if not ok:
                 V.add("da-recurrence", f"direct/{f_}", f"da_step #{i} (time_in_epoch {tie}, acceptance {a}, target {d['target']}, gamma {d['gamma']}, kappa {d['kappa']}, t0 {d['t0']}): {f_} = {g}, Hoffman-Gelman recurrence gives {e}")
         if a_hi > a and float(ks_hi.step_size) < float(ks.step_size) * (1 - 1e-6):
@@ -258,7 +271,8 @@ def check_engine(e, V, log, counters):
             # NaN). From there on the kernel's float32 numbers and a float64 recurrence differ for
             # reasons that have nothing to do with the rule; the chain is dropped (and counted)
             # from the epoch in which that happens - all earlier epochs have been compared step by step
-            if c in underflowed or not np.isfinite(eps_in) or eps_in < 1e-36 or np.min(F["step_size"][c, idx:idx + dur]) < 1e-36:
+            if (c in underflowed or not np.isfinite(eps_in) or eps_in < 1e-36 or eps_in > 1e37
+                    or np.min(F["step_size"][c, idx:idx + dur]) < 1e-36 or not np.max(F["step_size"][c, idx:idx + dur]) < 1e37):
                 underflowed.add(c)
                 counters["probe.step_size_left_float32_range"] = counters.get("probe.step_size_left_float32_range", 0) + 1
                 continue
@@ -278,7 +292,7 @@ def check_engine(e, V, log, counters):
                     exp = ref_step(state, acc[c, idx - 1 + tie], tie, *const)
                     for f_ in ("error_sum", "log_avg_step_size", "step_size", "mu"):
                         g, x = cur[f_], exp[f_]
-                        ok = close(np.log(g), np.log(x), 2e-4, 2e-4) if f_ == "step_size" and g > 0 and x > 0 else close(g, x, 2e-4, 2e-4)
+                        ok = step_close(g, x, 2e-4, 2e-4) if f_ == "step_size" else close(g, x, 2e-4, 2e-4)
                         if not ok:
                             V.add("da-recurrence", f"{e['kernel']}/{f_}",
                                   f"chain {c} epoch {ei + 1} ({TYPE[typ]}) time_in_epoch {tie}: {f_} = {g}, the recurrence from the previous stored state with acceptance {acc[c, idx - 1 + tie]} gives {x}")
